@@ -403,28 +403,12 @@ Proof.
   - intros [ilc [Hb [Hi [-> ->]]]]. exists ilc. split; [exact Hb|]. apply in_map_iff. exists i. auto.
 Qed.
 
-Lemma items_finish A pts wts c r rs it :
-  In it (items (finish ROps wd ball A pts wts c r rs)) <-> In it (gather ROps wd ball A pts wts c r (product rs)).
-Proof.
-  unfold finish. destruct (existsb null rs) eqn:E.
-  - apply existsb_exists in E as [x [Hx Hn]]. apply null_nil in Hn. subst x. rewrite (product_null _ Hx). cbn. tauto.
-  - destruct (null _) eqn:E2; [|reflexivity]. apply null_nil in E2. rewrite E2. cbn. tauto.
-Qed.
-
-Lemma finish_ok A pts wts c r rs :
-  is_ok (finish ROps wd ball A pts wts c r rs) = true <-> exists it, In it (items (finish ROps wd ball A pts wts c r rs)).
-Proof.
-  unfold finish. destruct (existsb null rs); [cbn; split; [discriminate|intros [? []]]|].
-  destruct (gather _ _ _ _ _ _ _ _) as [|a l] eqn:E; cbn; split; try discriminate; try (intros [? []]); auto.
-  intros _. exists a. now left.
-Qed.
-
 Lemma finish_exact A B pts pts' wts c r rs :
   dual B A -> 0 <= r -> lat_equiv A pts pts' -> length rs = length A ->
   (forall ilc i, length ilc = length A -> In i (ball pts' (radd c (rlin ilc A)) r) -> In ilc (product rs)) ->
-  forall it, In it (items (finish ROps wd ball A pts' wts c r rs)) <-> spec_item A pts wts c r it.
+  forall it, In it (finish ROps wd ball A pts' wts c r rs) <-> spec_item A pts wts c r it.
 Proof.
-  intros Hd Hr [Hlen Hlat] Hrs Hc [[i q] w]. rewrite items_finish, gather_in. split.
+  intros Hd Hr [Hlen Hlat] Hrs Hc [[i q] w]. unfold finish. rewrite gather_in. split.
   - intros [ilc [Hb [Hi [-> ->]]]]. apply (ball_spec _ _ _ _ Hr) in Hi as [Hi Hn]. rewrite Hlen in Hi.
     destruct (Hlat i Hi) as [z [Hz Hp]]. cbn. split; [exact Hi|]. split; [reflexivity|].
     assert (Hl : length ilc = length A) by (rewrite <- Hrs; now apply product_length).
@@ -442,10 +426,9 @@ Qed.
 
 Lemma finish_nodup A B pts wts c r rs :
   dual B A -> length rs = length A -> (forall x, In x rs -> NoDup x) ->
-  NoDup (map fst (items (finish ROps wd ball A pts wts c r rs))).
+  NoDup (map fst (finish ROps wd ball A pts wts c r rs)).
 Proof.
-  intros Hd Hrs Hnd. unfold finish. destruct (existsb null rs); [constructor|].
-  destruct (null _); [constructor|]. cbn [items]. unfold gather. rewrite map_flat_map'.
+  intros Hd Hrs Hnd. unfold finish, gather. rewrite map_flat_map'.
   apply NoDup_flat_map.
   - now apply product_nodup.
   - intros ilc _. rewrite map_map. cbn [fst]. apply NoDup_map_inj; [|apply ball_nodup].
@@ -494,7 +477,7 @@ Proof. unfold ranges. intros H. apply in_map_iff in H as [[k b] [<- _]]. apply r
 
 (* ---------------- general path: PeriodicGrid(points(N,M), ...).get_localgrid ------------------------ *)
 Lemma local_exact A B wrap pts wts c r : dual B A -> 0 <= r ->
-  forall it, In it (items (local ROps wd ball A B wrap pts wts c r)) <-> spec_item A pts wts c r it.
+  forall it, In it (local ROps wd ball A B wrap pts wts c r) <-> spec_item A pts wts c r it.
 Proof.
   intros Hd Hr. unfold local. pose proof Hd as [HlB _].
   apply (finish_exact A B); try assumption.
@@ -504,40 +487,40 @@ Proof.
 Qed.
 
 Lemma local_nodup A B wrap pts wts c r : dual B A ->
-  NoDup (map fst (items (local ROps wd ball A B wrap pts wts c r))).
+  NoDup (map fst (local ROps wd ball A B wrap pts wts c r)).
 Proof.
   intros Hd. unfold local. pose proof Hd as [HlB _]. apply (finish_nodup A B); try assumption.
   - now rewrite ranges_length.
   - apply ranges_nodup.
 Qed.
 
-Lemma local_ok A B wrap pts wts c r : dual B A -> 0 <= r ->
-  is_ok (local ROps wd ball A B wrap pts wts c r) = true <-> exists it, spec_item A pts wts c r it.
-Proof.
-  intros Hd Hr. unfold local at 1. rewrite finish_ok. fold (local ROps wd ball A B wrap pts wts c r).
-  split; intros [it H]; exists it; now apply (local_exact A B wrap pts wts c r Hd Hr).
-Qed.
-
 Lemma local_wrap_irrelevant A B pts wts c r : dual B A -> 0 <= r ->
-  forall it, In it (items (local ROps wd ball A B true pts wts c r)) <->
-             In it (items (local ROps wd ball A B false pts wts c r)).
+  forall it, In it (local ROps wd ball A B true pts wts c r) <->
+             In it (local ROps wd ball A B false pts wts c r).
 Proof. intros Hd Hr it. now rewrite !(local_exact A B _ pts wts c r Hd Hr). Qed.
 
 Lemma rsub_0_r v : rsub v rv0 = v.
 Proof. destruct v as [[? ?] ?]. vring. Qed.
 
-Lemma local_no_lattice wrap pts wts c r :
-  items (local ROps wd ball [] [] wrap pts wts c r) =
-  map (fun i => (i, nth i pts rv0, nth i wts wd)) (ball pts c r).
+Lemma finish_no_lattice pts wts c r :
+  finish ROps wd ball [] pts wts c r [] = map (fun i => (i, nth i pts rv0, nth i wts wd)) (ball pts c r).
 Proof.
-  unfold local, build. rewrite andb_false_r. rewrite map_map. cbn [fst]. rewrite map_id.
-  unfold finish, ranges. cbn [length seq combine map existsb product gather flat_map lincomb].
-  rewrite app_nil_r, radd_0_r.
-  assert (E : map (fun i => (i, rsub (nth i pts rv0) rv0, nth i wts wd)) (ball pts c r) =
-              map (fun i => (i, nth i pts rv0, nth i wts wd)) (ball pts c r)).
-  { apply map_ext. intros i. now rewrite rsub_0_r. }
-  rewrite E. set (l := map _ (ball pts c r)). destruct l; reflexivity.
+  unfold finish. cbn [product gather flat_map lincomb]. rewrite app_nil_r, radd_0_r.
+  apply map_ext. intros i. now rewrite rsub_0_r.
 Qed.
+
+Lemma build_no_lattice B wrap pts : map fst (build ROps [] B wrap pts) = pts.
+Proof. unfold build. cbn [null negb]. rewrite andb_false_r, map_map. cbn [fst]. apply map_id. Qed.
+
+Lemma local_no_lattice wrap pts wts c r :
+  local ROps wd ball [] [] wrap pts wts c r =
+  map (fun i => (i, nth i pts rv0, nth i wts wd)) (ball pts c r).
+Proof. unfold local. rewrite build_no_lattice. unfold ranges. cbn [length seq combine map]. apply finish_no_lattice. Qed.
+
+Lemma local1d_no_lattice wrap pts wts c r :
+  local1d ROps wd ball [] [] wrap pts wts c r =
+  map (fun i => (i, nth i pts rv0, nth i wts wd)) (ball pts c r).
+Proof. unfold local1d. rewrite build_no_lattice. apply finish_no_lattice. Qed.
 
 (* ---------------- 1-D path: PeriodicGrid(points(N,), weights, realvecs(1,)) ------------------------- *)
 Lemma sq_le_of_le d u : 0 < d -> d <= u -> d * d <= u * u.
@@ -545,11 +528,10 @@ Proof. intros. assert (0 <= (u - d) * (u + d)) by (apply Rmult_le_pos; lra). nra
 Lemma le_of_sq_le d u : 0 <= u -> d * d <= u * u -> d <= u.
 Proof. intros. destruct (Rle_dec d u); [assumption|]. assert (0 < (d - u) * (d + u)) by (apply Rmult_lt_0_compat; lra). nra. Qed.
 
-Lemma range1d_general_iff lo hi fc fc' r b m j : 0 <= r -> 0 < b -> fc' = fc -> m = (r * b) * (r * b) ->
-  In j (range1d ROps lo hi fc (r * b)) <-> In j (range ROps lo hi fc' m).
+Lemma range1d_general_iff lo hi fc fc' u m j : 0 <= u -> fc' = fc -> m = u * u ->
+  In j (range1d ROps lo hi fc u) <-> In j (range ROps lo hi fc' m).
 Proof.
-  intros Hr Hb -> ->. assert (Hu : 0 <= r * b) by nra. set (u := r * b) in *.
-  assert (Hm : 0 <= u * u) by nra.
+  intros Hu -> ->. assert (Hm : 0 <= u * u) by nra.
   rewrite range1d_in, (range_in _ _ _ _ _ Hm), in_lo_spec, in_hi_spec. split.
   - intros [H1 H2]. split.
     + destruct (Rle_dec (lo - fc - IZR j) 0); [now left|right]. apply sq_le_of_le; lra.
@@ -559,6 +541,13 @@ Proof.
     + destruct H2 as [H2|H2]; [lra|]. apply le_of_sq_le in H2; lra.
 Qed.
 
+Lemma nabs_R x : nabs ROps x = Rabs x.
+Proof.
+  unfold nabs. cbn [nleb nsub n0 ROps]. destruct (Rleb 0 x) eqn:E.
+  - apply Rleb_true in E. now rewrite Rabs_pos_eq.
+  - apply Rleb_false in E. rewrite Rabs_left by exact E. ring.
+Qed.
+
 Definition e1 (x : R) : rvec := (x, 0, 0).
 
 Lemma dual_1d a b : b * a = 1 -> dual [e1 b] [e1 a].
@@ -566,24 +555,27 @@ Proof.
   intros H. split; [reflexivity|]. intros [|k] [|l] Hk Hl; cbn in Hk, Hl; try lia. cbn. rewrite <- H. ring.
 Qed.
 
+(* any sign of the lattice vector: the spacing is |1/b| *)
 Lemma ranges1d_complete a b g c r :
-  b * a = 1 -> 0 < b -> 0 <= r -> consistent [e1 b] g ->
+  b * a = 1 -> 0 <= r -> consistent [e1 b] g ->
   forall ilc i, length ilc = length [e1 a] -> In i (ball (map fst g) (radd c (rlin ilc [e1 a])) r) ->
   In ilc (product (ranges1d ROps b g (fst (fst c)) r)).
 Proof.
-  intros Hab Hb Hr Hg ilc i Hl Hi.
+  intros Hab Hr Hg ilc i Hl Hi.
   pose proof (ranges_complete [e1 a] [e1 b] g c r (dual_1d a b Hab) Hr Hg ilc i Hl Hi) as H.
   apply in_product in H. apply in_product. unfold ranges in H. unfold ranges1d.
   cbn [length seq combine map] in H. inversion H as [|j r1 js rs Hj Hjs]; subst. constructor; [|exact Hjs].
-  cbn [nmul ROps]. eapply range1d_general_iff; [exact Hr|exact Hb| | |exact Hj].
+  cbn [nmul ROps]. rewrite nabs_R. eapply range1d_general_iff; [| | |exact Hj].
+  - pose proof (Rabs_pos b). nra.
   - destruct c as [[c1 c2] c3]. cbn. ring.
-  - cbn. ring.
+  - cbn. replace (r * Rabs b * (r * Rabs b)) with (r * r * (Rabs b * Rabs b)) by ring.
+    replace (Rabs b * Rabs b) with (b * b); [ring|]. fold (Rsqr (Rabs b)). rewrite <- Rsqr_abs. reflexivity.
 Qed.
 
-Lemma local1d_exact a b wrap pts wts c r : b * a = 1 -> 0 < a -> 0 <= r ->
-  forall it, In it (items (local1d ROps wd ball [e1 a] [e1 b] wrap pts wts c r)) <-> spec_item [e1 a] pts wts c r it.
+Lemma local1d_exact a b wrap pts wts c r : b * a = 1 -> 0 <= r ->
+  forall it, In it (local1d ROps wd ball [e1 a] [e1 b] wrap pts wts c r) <-> spec_item [e1 a] pts wts c r it.
 Proof.
-  intros Hab Ha Hr. assert (Hb : 0 < b) by nra. unfold local1d. cbn [e1 fst].
+  intros Hab Hr. unfold local1d. cbn [e1 fst].
   apply (finish_exact [e1 a] [e1 b]); try assumption.
   - now apply dual_1d.
   - now apply build_lat_equiv.
@@ -592,74 +584,13 @@ Proof.
 Qed.
 
 Lemma local1d_nodup a b wrap pts wts c r : b * a = 1 ->
-  NoDup (map fst (items (local1d ROps wd ball [e1 a] [e1 b] wrap pts wts c r))).
+  NoDup (map fst (local1d ROps wd ball [e1 a] [e1 b] wrap pts wts c r)).
 Proof.
   intros Hab. unfold local1d. cbn [e1 fst]. apply (finish_nodup [e1 a] [e1 b]).
   - now apply dual_1d.
   - reflexivity.
   - intros x [<-|[]]. apply range1d_nodup.
 Qed.
-
-Lemma local1d_ok a b wrap pts wts c r : b * a = 1 -> 0 < a -> 0 <= r ->
-  is_ok (local1d ROps wd ball [e1 a] [e1 b] wrap pts wts c r) = true <-> exists it, spec_item [e1 a] pts wts c r it.
-Proof.
-  intros Hab Ha Hr. pose proof (local1d_exact a b wrap pts wts c r Hab Ha Hr) as He.
-  unfold local1d in *. cbn [e1 fst] in *. rewrite finish_ok.
-  split; intros [it H]; exists it; now apply He.
-Qed.
-
-(* ---------------- defects of the pinned code ---------------------------------------------------------- *)
-(* a sphere containing no image: the property asks for an empty local grid, the code raises *)
-Lemma empty_sphere_not_ok A B wrap pts wts c r : dual B A -> 0 <= r ->
-  (forall it, ~ spec_item A pts wts c r it) -> is_ok (local ROps wd ball A B wrap pts wts c r) = false.
-Proof.
-  intros Hd Hr He. destruct (is_ok _) eqn:E; [|reflexivity].
-  apply (local_ok A B wrap pts wts c r Hd Hr) in E as [it H]. now apply He in H.
-Qed.
-
-Lemma empty_witness_assert w :
-  local ROps wd ball [e1 10] [e1 (1/10)] false [e1 0] [w] (e1 5) 1 = AssertFail.
-Proof.
-  unfold local, build, finish. cbn [andb map fst snd].
-  replace (existsb null _) with true; [reflexivity|]. symmetry.
-  unfold ranges. cbn [length seq combine map existsb].
-  rewrite (no_member_nil (range _ _ _ _ _)); [reflexivity|].
-  intros j Hj. apply range_in in Hj; [|cbn; lra]. destruct Hj as [H1 H2].
-  apply in_lo_spec in H1. apply in_hi_spec in H2. cbn in H1, H2.
-  unfold nmin, nmax, fracs, e1 in H1, H2; cbn in H1, H2.
-  destruct (Z_le_gt_dec j (-1)) as [Hz|Hz].
-  - apply IZR_le in Hz. destruct H1; nra.
-  - assert (Hz' : (0 <= j)%Z) by lia. apply IZR_le in Hz'. destruct H2; nra.
-Qed.
-
-Lemma empty_witness_concat w :
-  local ROps wd ball [] [] false [e1 0] [w] (e1 5) 1 = EmptyConcat.
-Proof.
-  unfold local, build, finish. cbn [andb map fst snd negb null].
-  unfold ranges. cbn [length seq combine map existsb product gather flat_map lincomb].
-  rewrite (no_member_nil (ball _ _ _)); [reflexivity|].
-  intros i Hi. apply ball_spec in Hi; [|lra]. destruct Hi as [Hi Hn]. cbn in Hi.
-  assert (i = 0%nat) by lia. subst. cbn in Hn. lra.
-Qed.
-
-(* 1-D array path with a negative lattice vector: the sphere contains the point itself, the code raises *)
-Lemma neg_1d_witness w :
-  local1d ROps wd ball [e1 (-4)] [e1 (-1/4)] false [e1 1] [w] (e1 1) (7/2) = AssertFail /\ spec_item [e1 (-4)] [e1 1] [w] (e1 1) (7/2) (0%nat, e1 1, w).
-Proof.
-  split.
-  - unfold local1d, build, finish. cbn [andb map fst snd e1].
-    replace (existsb null _) with true; [reflexivity|]. symmetry.
-    unfold ranges1d. cbn [existsb].
-    rewrite (no_member_nil (range1d _ _ _ _ _)); [reflexivity|].
-    intros j Hj. apply range1d_in in Hj. cbn in Hj. unfold fracs in Hj; cbn in Hj. lra.
-  - cbn. split; [lia|]. split; [reflexivity|]. exists [0%Z]. split; [reflexivity|]. split.
-    + unfold e1. vring.
-    + lra.
-Qed.
-
-(* 1-D array path without lattice vectors: the constructor raises for every input *)
-Lemma no_lattice_1d_broadcast A wrap pts wts c r : local1d ROps wd ball A [] wrap pts wts c r = Broadcast.
-Proof. reflexivity. Qed.
 End Theorems.
 
 (* ------------------------------------------------------------------ the ball-query contract is satisfiable *)
@@ -722,6 +653,18 @@ Proof.
   destruct (Rle_lt_or_eq_dec 0 (rdot b b)) as [Hp|Hz]; [assumption|exact Hp|]. rewrite <- Hz in Hcs. lra.
 Qed.
 
+(* 1-D path: the range is ceil(lo - b c - r/s) .. floor(hi - b c + r/s) with s = |1/b| *)
+Lemma range1d_is_code_formula_lemma lo hi b c r j : b <> 0 ->
+  let s := Rabs (1 / b) in
+  In j (range1d ROps lo hi (b * c) (r * nabs ROps b)) <->
+  (Zceil (lo - b * c - r / s) <= j <= Zfloor (hi - b * c + r / s))%Z.
+Proof.
+  intros Hb s. rewrite range1d_in, Zceil_le_iff, Zfloor_ge_iff, nabs_R.
+  assert (E : r / s = r * Rabs b).
+  { unfold s. unfold Rdiv at 2. rewrite Rmult_1_l, Rabs_inv. field. now apply Rabs_no_R0. }
+  rewrite E. reflexivity.
+Qed.
+
 (* ------------------------------------------------------------------ final statements (used by C11_props.v) *)
 Section Final.
 Context {W : Type} (wd : W).
@@ -730,10 +673,8 @@ Hypothesis Hball : ball_ok ball.
 Let bs := proj1 Hball.
 Let bn := proj2 Hball.
 
-Definition in_sphere_spec := @spec_item W wd.
-
 Lemma local_grid_exact_lemma A B wrap pts wts c r : dual B A -> 0 <= r ->
-  forall i q w, In (i, q, w) (items (local ROps wd ball A B wrap pts wts c r)) <->
+  forall i q w, In (i, q, w) (local ROps wd ball A B wrap pts wts c r) <->
     ((i < length pts)%nat /\ w = nth i wts wd /\
      exists j, length j = length A /\ q = radd (nth i pts rv0) (rlin j A) /\ rnorm (rsub q c) <= r).
 Proof.
@@ -743,12 +684,12 @@ Proof.
 Qed.
 
 Lemma sound_lemma A B wrap pts wts c r : dual B A -> 0 <= r ->
-  forall i q w, In (i, q, w) (items (local ROps wd ball A B wrap pts wts c r)) ->
+  forall i q w, In (i, q, w) (local ROps wd ball A B wrap pts wts c r) ->
   exists j, length j = length A /\ q = radd (nth i pts rv0) (rlin j A) /\ rnorm (rsub q c) <= r.
 Proof. intros Hd Hr i q w H. apply (local_grid_exact_lemma A B wrap pts wts c r Hd Hr) in H. tauto. Qed.
 
 Lemma weights_indices_parent_lemma A B wrap pts wts c r : dual B A -> 0 <= r ->
-  forall i q w, In (i, q, w) (items (local ROps wd ball A B wrap pts wts c r)) ->
+  forall i q w, In (i, q, w) (local ROps wd ball A B wrap pts wts c r) ->
   (i < length pts)%nat /\ w = nth i wts wd.
 Proof. intros Hd Hr i q w H. apply (local_grid_exact_lemma A B wrap pts wts c r Hd Hr) in H. tauto. Qed.
 
@@ -756,94 +697,56 @@ Lemma rsub_as_add p J : rsub p J = radd p (rsub rv0 J).
 Proof. destruct p as [[? ?] ?], J as [[? ?] ?]. vring. Qed.
 
 Lemma position_lemma A B wrap pts wts c r : dual B A -> 0 <= r ->
-  forall i q w, In (i, q, w) (items (local ROps wd ball A B wrap pts wts c r)) ->
+  forall i q w, In (i, q, w) (local ROps wd ball A B wrap pts wts c r) ->
   (exists j, length j = length A /\ q = radd (nth i pts rv0) (rlin j A)) /\
   (exists j, length j = length A /\ q = radd (nth i (stored_points ROps A B wrap pts) rv0) (rlin j A)).
 Proof.
   intros Hd Hr i q w H. split.
   - apply (sound_lemma A B wrap pts wts c r Hd Hr) in H as [j [H1 [H2 _]]]. now exists j.
-  - unfold local in H. cbv zeta in H. apply items_finish in H. apply gather_in in H. destruct H as [ilc [Hb [_ [Hq _]]]].
+  - unfold local in H. cbv zeta in H. unfold finish in H. apply gather_in in H. destruct H as [ilc [Hb [_ [Hq _]]]].
     apply product_length in Hb. rewrite ranges_length in Hb. destruct Hd as [HlB _].
     exists (map Z.opp ilc). split; [rewrite map_length; congruence|].
     rewrite <- rlin_opp by congruence. rewrite Hq. apply rsub_as_add.
 Qed.
 
 Lemma no_duplicates_lemma A B wrap pts wts c r : dual B A ->
-  NoDup (map fst (items (local ROps wd ball A B wrap pts wts c r))).
+  NoDup (map fst (local ROps wd ball A B wrap pts wts c r)).
 Proof. intros Hd. now apply (local_nodup wd ball bn). Qed.
 
 Lemma wrap_irrelevant_lemma A B pts wts c r : dual B A -> 0 <= r ->
-  (forall it, In it (items (local ROps wd ball A B true pts wts c r)) <->
-              In it (items (local ROps wd ball A B false pts wts c r))) /\
-  is_ok (local ROps wd ball A B true pts wts c r) = is_ok (local ROps wd ball A B false pts wts c r).
+  forall it, In it (local ROps wd ball A B true pts wts c r) <->
+             In it (local ROps wd ball A B false pts wts c r).
+Proof. intros Hd Hr. now apply (local_wrap_irrelevant wd ball bs). Qed.
+
+(* a sphere containing no image gives the empty local grid *)
+Lemma empty_sphere_lemma A B wrap pts wts c r : dual B A -> 0 <= r ->
+  (forall i j, (i < length pts)%nat -> length j = length A ->
+               ~ rnorm (rsub (radd (nth i pts rv0) (rlin j A)) c) <= r) ->
+  local ROps wd ball A B wrap pts wts c r = [].
 Proof.
-  intros Hd Hr. split; [now apply (local_wrap_irrelevant wd ball bs)|].
-  pose proof (local_ok wd ball bs A B true pts wts c r Hd Hr) as H1.
-  pose proof (local_ok wd ball bs A B false pts wts c r Hd Hr) as H2.
-  destruct (is_ok (local _ _ _ _ _ true _ _ _ _)), (is_ok (local _ _ _ _ _ false _ _ _ _)); try reflexivity.
-  - symmetry. apply H2, H1. reflexivity.
-  - apply H1, H2. reflexivity.
+  intros Hd Hr He. apply no_member_nil. intros [[i q] w] H.
+  apply (local_grid_exact_lemma A B wrap pts wts c r Hd Hr) in H as [H1 [_ [j [H3 [-> H5]]]]].
+  now apply (He i j).
 Qed.
 
-Lemma no_lattice_lemma wrap pts wts c r :
-  items (local ROps wd ball [] [] wrap pts wts c r) =
-  map (fun i => (i, nth i pts rv0, nth i wts wd)) (ball pts c r).
-Proof. apply local_no_lattice. Qed.
-
-Lemma ok_iff_nonempty_lemma A B wrap pts wts c r : dual B A -> 0 <= r ->
-  (is_ok (local ROps wd ball A B wrap pts wts c r) = true <->
-   exists i j, (i < length pts)%nat /\ length j = length A /\
-               rnorm (rsub (radd (nth i pts rv0) (rlin j A)) c) <= r).
-Proof.
-  intros Hd Hr. rewrite (local_ok wd ball bs A B wrap pts wts c r Hd Hr). split.
-  - intros [[[i q] w] [H1 [_ [j [H3 [-> H5]]]]]]. exists i, j. repeat split; try assumption. now apply (rnorm_le _ _ Hr).
-  - intros [i [j [H1 [H2 H3]]]]. exists (i, radd (nth i pts rv0) (rlin j A), nth i wts wd). cbn.
-    repeat split; try assumption. exists j. repeat split; try assumption. now apply (rnorm_le _ _ Hr).
-Qed.
-
-(* the property wants an empty local grid for a sphere without images; the model (and the code) raise *)
-Lemma empty_refuted_lemma :
-  (forall A B wrap pts wts c r, dual B A -> 0 <= r ->
-     (forall i j, (i < length pts)%nat -> length j = length A ->
-                  ~ rnorm (rsub (radd (nth i pts rv0) (rlin j A)) c) <= r) ->
-     is_ok (local ROps wd ball A B wrap pts wts c r) = false) /\
-  (forall w, dual [e1 (1/10)] [e1 10] /\ local ROps wd ball [e1 10] [e1 (1/10)] false [e1 0] [w] (e1 5) 1 = AssertFail) /\
-  (forall w, dual [] [] /\ local ROps wd ball [] [] false [e1 0] [w] (e1 5) 1 = EmptyConcat).
-Proof.
-  split; [|split].
-  - intros A B wrap pts wts c r Hd Hr He. destruct (is_ok _) eqn:E; [|reflexivity].
-    apply (ok_iff_nonempty_lemma A B wrap pts wts c r Hd Hr) in E as [i [j [H1 [H2 H3]]]]. exfalso. now apply (He i j).
-  - intros w. split; [apply dual_1d; lra | apply (empty_witness_assert wd ball)].
-  - intros w. split; [split; [reflexivity|intros k l Hk; cbn in Hk; lia] | apply (empty_witness_concat wd ball bs)].
-Qed.
-
-Lemma path1d_exact_lemma a b wrap pts wts c r : b * a = 1 -> 0 < a -> 0 <= r ->
-  (forall i q w, In (i, q, w) (items (local1d ROps wd ball [e1 a] [e1 b] wrap pts wts c r)) <->
+Lemma path1d_exact_lemma a b wrap pts wts c r : b * a = 1 -> 0 <= r ->
+  (forall i q w, In (i, q, w) (local1d ROps wd ball [e1 a] [e1 b] wrap pts wts c r) <->
     ((i < length pts)%nat /\ w = nth i wts wd /\
      exists j, length j = 1%nat /\ q = radd (nth i pts rv0) (rlin j [e1 a]) /\ rnorm (rsub q c) <= r)) /\
-  NoDup (map fst (items (local1d ROps wd ball [e1 a] [e1 b] wrap pts wts c r))).
+  NoDup (map fst (local1d ROps wd ball [e1 a] [e1 b] wrap pts wts c r)).
 Proof.
-  intros Hab Ha Hr. split; [|now apply (local1d_nodup wd ball bn)].
-  intros i q w. rewrite (local1d_exact wd ball bs a b wrap pts wts c r Hab Ha Hr). cbn.
+  intros Hab Hr. split; [|now apply (local1d_nodup wd ball bn)].
+  intros i q w. rewrite (local1d_exact wd ball bs a b wrap pts wts c r Hab Hr). cbn.
   split; intros [H1 [H2 [j [H3 [H4 H5]]]]]; (split; [exact H1|split; [exact H2|]]); exists j; (split; [exact H3|split; [exact H4|]]);
     now apply (rnorm_le _ _ Hr).
 Qed.
-
-Lemma neg_1d_refuted_lemma : forall w,
-  (-1/4) * (-4) = 1 /\
-  local1d ROps wd ball [e1 (-4)] [e1 (-1/4)] false [e1 1] [w] (e1 1) (7/2) = AssertFail /\
-  rnorm (rsub (radd (e1 1) (rlin [0%Z] [e1 (-4)])) (e1 1)) <= 7/2.
-Proof.
-  intros w. split; [lra|]. destruct (neg_1d_witness wd ball w) as [H1 H2]. split; [exact H1|].
-  cbn in H2. destruct H2 as [_ [_ [j [Hj [Hq Hn]]]]]. apply rnorm_le; [lra|].
-  replace (radd (e1 1) (rlin [0%Z] [e1 (-4)])) with (e1 1); [|unfold e1; vring].
-  unfold e1. cbn. lra.
-Qed.
-
-Lemma no_lattice_1d_refuted_lemma : forall wrap pts wts c r,
-  local1d ROps wd ball [] [] wrap pts wts c r = Broadcast.
-Proof. intros. reflexivity. Qed.
 End Final.
+
+(* statements whose proofs do not need the ball contract, in the uniform shape used by C11_props.v *)
+Lemma no_lattice_lemma_b : forall W (wd : W) ball, ball_ok ball -> forall wrap pts wts c r,
+  local ROps wd ball [] [] wrap pts wts c r = map (fun i => (i, nth i pts rv0, nth i wts wd)) (ball pts c r) /\
+  local1d ROps wd ball [] [] wrap pts wts c r = map (fun i => (i, nth i pts rv0, nth i wts wd)) (ball pts c r).
+Proof. intros W wd ball _ wrap pts wts c r. split; [apply local_no_lattice | apply local1d_no_lattice]. Qed.
 
 (* ------------------------------------------------------------------ the hypotheses are satisfiable *)
 (* a skewed 2-D cell a1 = (1,0), a2 = (7,1) with its reciprocal vectors; a 3-D cell with a negative vector *)
@@ -855,23 +758,21 @@ Example dual_neg_3d : dual [(1/2, 0, 0); (1/4, -1/2, 0); (0, 0, -1)] [(2, 1, 0);
 Proof.
   split; [reflexivity|]. intros [|[|[|k]]] [|[|[|l]]] Hk Hl; cbn in Hk, Hl; try lia; cbn; field.
 Qed.
+Example dual_neg_1d : dual [e1 (-1/4)] [e1 (-4)].
+Proof. apply dual_1d. lra. Qed.
 Example ball_contract_satisfiable : exists ball, ball_ok ball.
 Proof. exists (exact_ball ROps). apply exact_ball_ok. Qed.
-(* a non-empty sphere exists for the skewed cell: the property's right-hand side is inhabited *)
+(* a non-empty sphere exists for the skewed cell, with an image exactly on the sphere (|(0,1)| = 1) *)
 Example sphere_nonempty_skew :
-  rnorm (rsub (radd (0, 0, 0) (rlin [(-7)%Z; 1%Z] [(1, 0, 0); (7, 1, 0)])) (0, 0, 0)) <= 2.
+  rnorm (rsub (radd (0, 0, 0) (rlin [(-7)%Z; 1%Z] [(1, 0, 0); (7, 1, 0)])) (0, 0, 0)) <= 1.
 Proof. apply rnorm_le; [lra|]. cbn. lra. Qed.
-
-(* statements whose proofs do not need the ball contract, in the uniform shape used by C11_props.v *)
-Lemma no_lattice_lemma_b : forall W (wd : W) ball, ball_ok ball -> forall wrap pts wts c r,
-  items (local ROps wd ball [] [] wrap pts wts c r) =
-  map (fun i => (i, nth i pts rv0, nth i wts wd)) (ball pts c r).
-Proof. intros W wd ball _. apply no_lattice_lemma. Qed.
-Lemma neg_1d_refuted_lemma_b : forall W (wd : W) ball, ball_ok ball -> forall w,
-  (-1/4) * (-4) = 1 /\
-  local1d ROps wd ball [e1 (-4)] [e1 (-1/4)] false [e1 1] [w] (e1 1) (7/2) = AssertFail /\
-  rnorm (rsub (radd (e1 1) (rlin [0%Z] [e1 (-4)])) (e1 1)) <= 7/2.
-Proof. intros W wd ball _. apply neg_1d_refuted_lemma. Qed.
-Lemma no_lattice_1d_refuted_lemma_b : forall W (wd : W) ball, ball_ok ball -> forall wrap pts wts c r,
-  local1d ROps wd ball [] [] wrap pts wts c r = Broadcast.
-Proof. intros W wd ball _. apply no_lattice_1d_refuted_lemma. Qed.
+(* an empty sphere exists: the hypothesis of empty_sphere_gives_empty_grid is satisfiable *)
+Example sphere_empty_example : forall i j, (i < 1)%nat -> length j = 1%nat ->
+  ~ rnorm (rsub (radd (nth i [e1 0] rv0) (rlin j [e1 10])) (e1 5)) <= 1.
+Proof.
+  intros i j Hi Hj H. apply rnorm_le in H; [|lra]. assert (i = 0%nat) by lia. subst.
+  destruct j as [|j0 [|? ?]]; try discriminate. cbn in H.
+  destruct (Z_le_gt_dec j0 0) as [Hz|Hz].
+  - apply IZR_le in Hz. nra.
+  - assert (Hz' : (1 <= j0)%Z) by lia. apply IZR_le in Hz'. nra.
+Qed.
